@@ -1,0 +1,13 @@
+//go:build verif
+
+package dict
+
+import "github.com/mmcloughlin/addchain"
+
+// VerifPrimitive exposes primitive to the external verification harness.
+func VerifPrimitive(sum Sum, c addchain.Chain) (Sum, addchain.Chain, error) {
+	return primitive(sum, c)
+}
+
+// VerifDictSumChain exposes dictsumchain to the external verification harness.
+func VerifDictSumChain(sum Sum) addchain.Chain { return dictsumchain(sum) }
